@@ -486,10 +486,9 @@ func genC15(g *Gen) {
 	}
 
 	// a small back-to-front fill in quick; the 1100-word one in thorough
-	sizes := []int64{3, 40}
-	if g.Thorough {
-		sizes = append(sizes, 1100)
-	}
+	// a run of MORE than 1024 complete words behind an incomplete first word, in both tiers (bulk calls
+	// keep it cheap): the completing Set must drop all of them at once
+	sizes := []int64{3, 40, 1100}
 	for _, nw := range sizes {
 		for _, o := range []int64{0, 128} {
 			h := c15New(o)
@@ -503,6 +502,13 @@ func genC15(g *Gen) {
 			h.Set(o) // everything is compacted at once
 			h.randomProbes(g, o, 4)
 			h.Probe(3, o+64*nw-1)
+			// a Set beyond the end right after the big compaction, probed at and around it
+			far := h.end + 64*2 + 5
+			h.Set(far)
+			for _, j := range []int64{far, far - 1, far + 1, far - 64, h.end - 1, h.offset(), h.offset() + 63} {
+				h.Probe(3, j)
+				h.Probe(2, j)
+			}
 			for q := 0; q < 10; q++ {
 				last := h.offset() - 30 + int64(g.R.Intn(64*3))
 				h.Set(last)
@@ -516,4 +522,5 @@ func genC15(g *Gen) {
 	genC15Literal(g)
 	genC15Words(g)
 	genC15Int64(g)
+	genC15Pair(g)
 }
